@@ -339,7 +339,9 @@ void TcpConnection::connectEstablished()
 void TcpConnection::connectDestroyed()
 {
   loop_->assertInLoopThread();
-  if (state_ == kConnected)
+  // kDisconnecting: shutdown()/forceClose() was requested but the connection
+  // has not gone down yet - it is still up and must be taken down here as well
+  if (state_ == kConnected || state_ == kDisconnecting)
   {
     setState(kDisconnected);
     channel_->disableAll();
